@@ -151,7 +151,7 @@ func c01(r *Report) propMeta {
 	// accepted for requests behind the cap), starting right after the last expired one
 	per := "x/oracle/keeper.Keeper.ProcessExpiredRequests"
 	r.CondExists("sweep-up-to-request-count", per, Cond{Op: "LSS", A: []string{"^call:Keeper.GetRequestCount"}, B: []string{"^phi", "call:Keeper.GetRequestLastExpired", "const:1"}, Want: false}, 1)
-	r.CondCount("sweep-branches", per, 5) // loop bound, not-yet-expired break, has-result, validator loop, has-report
+	r.CondCount("sweep-branches", per, 5)                                                                                                                   // loop bound, not-yet-expired break, has-result, validator loop, has-report
 	r.LoopVisitsAll("every-expired-request-resolved", "x/oracle/keeper.Keeper.ProcessExpiredRequests", "Keeper.ResolveExpired", LoopOpts{MaxOtherExits: 1}) // reviewed `break` at the first request not yet expired
 
 	r.Rule("C01.R10", "store-key agreement: every point read/delete addresses a written key family")
